@@ -21,7 +21,7 @@ def mk(name, mx, ie, nmsg, rdmax=2):
 #   capacity 2, 4 messages, id lists <= 2:  14 000 (size/off) .. 108 000 (expiry/instant) per configuration
 #   capacity 2, 4 messages, id lists <= 3:  14 000 .. 115 000;  all 21 configurations together 1.1 million
 #   capacity 3, 4 messages, id lists <= 2:  32 000 .. 365 000;  all 21 together 3.5 million
-#   capacity 3, 5 messages, id lists <= 2:  3-kind menu 160 000 .. 480 000, 4-kind menus 0.4 .. 1.9 million
+#   capacity 3, 5 messages, id lists <= 2:  3-kind menu 160 000 .. 480 000; 4-kind menus from 235 000 (mixed/off)
 SMALL3 = [("expiry0", "off"), ("expiry0", "instant"), ("expiry0", "never"), ("size", "off"), ("size", "instant"),
           ("size", "never"), ("rel", "off"), ("mixed", "off"), ("rel", "never"), ("qos", "off")]   # capacity 3: <= 140 000
 
@@ -38,7 +38,7 @@ def plan(tier, seed):
             tc.append(mk(n, 2, ies[(seed + k) % 3], 4))
         n3, ie3 = SMALL3[seed % len(SMALL3)]
         tc.append(mk(n3, 3, ie3, 4))
-        design = [mk(names[seed % len(names)], 2, ies[seed % 3], 4)]
+        design = [mk(names[seed % len(names)], 2, ies[seed % 3], 3)]      # 3 messages: ~10^5 transitions
         return design, tc
     tc, design = [], []
     for i, n in enumerate(names):
@@ -51,7 +51,7 @@ def plan(tier, seed):
     for ie in ies:
         tc.append(mk("rel", 3, ie, 5))
     big = [n for n in names if n != "rel"]
-    tc.append(mk(big[seed % len(big)], 3, ies[seed % 3], 5))
+    tc.append(mk(big[seed % len(big)], 3, ["off", "never"][seed % 2], 5))     # "instant" at this size: > 1.5 million
     return design, tc
 
 
@@ -113,23 +113,23 @@ def run(ctx):
     def work(task):
         kind, cfg = task
         if kind == "design":
-            return kind, cfg, queue_lib.design_check(ctx, cfg)
-        return kind, cfg, queue_lib.run_pack(ctx, cfg)
+            r = queue_lib.design_check(ctx, cfg)
+            vlib.log("[C10] design-level %-24s states=%d transitions=%d depth=%d %.1fs" % (
+                queue_lib.cfg_name(cfg), r.distinct, r.generated, r.depth, r.wall))
+            return kind, cfg, r
+        summary, divs, rec = queue_lib.run_pack(ctx, cfg)
+        vlib.log("[C10] replay %-24s states=%d transitions=%d divergent=%d skipped(prefix diverged)=%d %.1fs" % (
+            queue_lib.cfg_name(cfg), rec["states"], summary["n"], summary["divergences"],
+            summary.get("tainted_prefix", 0), rec["wall_s"]))
+        return kind, cfg, (summary, divs, rec)
 
     from concurrent.futures import ThreadPoolExecutor
     with ThreadPoolExecutor(max_workers=2) as ex:
         done = list(ex.map(work, tasks))
-    results = []
     for kind, cfg, r in done:
         if kind == "design":
-            vlib.log("[C10] design-level %-24s states=%d transitions=%d depth=%d %.1fs" % (
-                queue_lib.cfg_name(cfg), r.distinct, r.generated, r.depth, r.wall))
-        else:
-            results.append((cfg, r))
-    for cfg, (summary, divs, rec) in results:
-        vlib.log("[C10] replay %-24s states=%d transitions=%d divergent=%d skipped(prefix diverged)=%d %.1fs" % (
-            queue_lib.cfg_name(cfg), rec["states"], summary["n"], summary["divergences"],
-            summary.get("tainted_prefix", 0), rec["wall_s"]))
+            continue
+        summary, divs, rec = r
         for k, v in summary["counters"].items():
             if k.startswith("div:"):
                 counts[k[4:]] = counts.get(k[4:], 0) + v
